@@ -504,7 +504,7 @@ func (e *Enc) unop(cur *cursor, x *ssa.UnOp) {
 			}
 			n, s := e.fieldArr(addr.SI, addr.Field)
 			e.setVal(cur, x, fmt.Sprintf("(select %s %s)", e.heapGet(st, n, s), addr.Base))
-			e.assume(cur.guard, e.typeAssume(st, fc.vals[x].T, x.Type()))
+			e.assume(cur.guard, e.typeAssumeFrom(st, e.heapGet(st, n, s), fc.vals[x].T, x.Type()))
 		default:
 			a := e.asTerm(addr)
 			if !isNonNilValue(x.X) {
@@ -887,7 +887,7 @@ func (e *Enc) lookup(cur *cursor, x *ssa.Lookup) {
 	dn, ds, vn, vs := e.mapArrs(x.X.Type())
 	present := e.define("present", "Bool", fmt.Sprintf("(and (not (= %s Nil)) (select (select %s %s) %s))", base, e.heapGet(st, dn, ds), base, k))
 	val := e.define("mval", e.m.sortOf(mt.Elem()), fmt.Sprintf("(ite %s (select (select %s %s) %s) %s)", present, e.heapGet(st, vn, vs), base, k, e.m.zero(mt.Elem())))
-	e.assume(cur.guard, e.typeAssume(st, val, mt.Elem()))
+	e.assume(cur.guard, e.typeAssumeFrom(st, e.heapGet(st, vn, vs), val, mt.Elem()))
 	if e.elemNonNil(mt.Elem()) && !e.isFreshAddr(base) {
 		e.assume(cur.guard, fmt.Sprintf("(=> %s (not (= %s %s)))", present, val, e.nilOfType(mt.Elem())))
 	}
